@@ -69,7 +69,7 @@ def build_harness():
 
 # ---------------------------------------------------------------------------------------- harness
 
-def run_harness(sub, args, out, start, runs, timeout_s=1800):
+def run_harness(sub, args, out, start, runs, timeout_s=1800, env=None):
     """Run `uvh <sub>` for run indices [start, start+runs).  The harness exits 3 when a call into the
     library did not return (watchdog); the hang record is already in the trace, and the remaining
     runs are executed by a fresh process appending to a continuation file."""
@@ -83,7 +83,7 @@ def run_harness(sub, args, out, start, runs, timeout_s=1800):
         prog = part + ".progress"
         cmd = [UVH, sub, "--out", part, "--progress", prog, "--start", str(cur), "--runs", str(end - cur)] + [str(a) for a in args]
         try:
-            p = subprocess.run(cmd, stdout=subprocess.PIPE, stderr=subprocess.PIPE, text=True, timeout=max(10, timeout_s - (time.time() - t0)))
+            p = subprocess.run(cmd, stdout=subprocess.PIPE, stderr=subprocess.PIPE, text=True, timeout=max(10, timeout_s - (time.time() - t0)), env=dict(os.environ, **env) if env else None)
         except subprocess.TimeoutExpired:
             raise ToolError("harness timed out: %s" % " ".join(cmd))
         parts.append(part)
@@ -111,7 +111,7 @@ def run_harness(sub, args, out, start, runs, timeout_s=1800):
     return out
 
 
-def run_harness_parallel(sub, args, outprefix, total_runs, jobs, timeout_s=1800, start0=0):
+def run_harness_parallel(sub, args, outprefix, total_runs, jobs, timeout_s=1800, start0=0, env=None):
     """Split `total_runs` into `jobs` contiguous ranges, one harness process each."""
     per = (total_runs + jobs - 1) // jobs
     tasks = []
@@ -124,7 +124,7 @@ def run_harness_parallel(sub, args, outprefix, total_runs, jobs, timeout_s=1800,
         i += 1
     outs = []
     with concurrent.futures.ThreadPoolExecutor(max_workers=jobs) as ex:
-        futs = [ex.submit(run_harness, sub, args, o, s, n, timeout_s) for (o, s, n) in tasks]
+        futs = [ex.submit(run_harness, sub, args, o, s, n, timeout_s, env) for (o, s, n) in tasks]
         for f in futs:
             outs.append(f.result())
     return outs
